@@ -645,11 +645,21 @@ RTOL = 1e-9
 ATOL = 1e-11
 
 
+INNER = "^"      # `name^` in a set of batched parameters: the parameter carries only the INNER sample dimension(s)
+#                  (shape [K] + base under sample shape [S, K]): it is shared by the S outer samples
+
+
+def has_inner(batched):
+    return any(n.endswith(INNER) for n in batched)
+
+
 def gen_values(rng, spec, batched, ss):
     vals = {}
     for name, (shape, g) in spec.params.items():
         if name in batched:
             vals[name] = _fill(list(ss), lambda: g(rng, list(shape)))
+        elif name + INNER in batched:
+            vals[name] = _fill(list(ss[1:]), lambda: g(rng, list(shape)))
         else:
             vals[name] = g(rng, list(shape))
     return vals
@@ -661,6 +671,9 @@ def slice_vals(spec, vals, batched, idx):
         v = vals[name]
         if name in batched:
             for i in idx:
+                v = v[i]
+        elif name + INNER in batched:
+            for i in idx[1:]:
                 v = v[i]
         out[name] = v
     return out
@@ -718,6 +731,25 @@ def oracle(spec, batched, ss, vals, extras=False):
         if o.numel() == rn and all(all(close(x, y) for x, y in zip(_tolist(o), _tolist(r[k]))) for r in refs):
             continue        # the value does not depend on the batched parameters and is returned unbatched: it is
             #                 the (broadcast) value of every sample
+        n_in = 1
+        for k_ in ss[1:]:
+            n_in *= k_
+        if has_inner(batched) and len(ss) == 2 and rn and o.numel() == n_in * rn and n_in != n:
+            # the result carries the inner dimension only (it depends on inner-batched parameters alone):
+            # it is the value of every outer sample
+            rows_in = o.reshape(n_in, rn)
+            bad_in = None
+            for s_, r in enumerate(refs):
+                a, b = _tolist(rows_in[s_ % n_in]), _tolist(r[k])
+                if not all(close(x, y) for x, y in zip(a, b)):
+                    bad_in = (s_, a[:2], b[:2])
+                    break
+            if bad_in is None:
+                continue
+            res.update(outcome="mix", observable=k, sample=bad_in[0],
+                       what=f"sample {bad_in[0]} of {list(ss)}: the batched call returns {bad_in[1]!r} (result carrying the "
+                            f"inner dimension only), the call with slice {bad_in[0]} alone returns {bad_in[2]!r}")
+            return res
         if o.numel() != n * rn:
             res.update(outcome="shape", observable=k,
                        what=f"result of shape {list(o.shape)} for sample shape {list(ss)} where an unbatched call "
@@ -1045,6 +1077,18 @@ def make_jobs(tier, seed):
                 sel = list(dict.fromkeys(sel))
             for ss in sel:
                 jobs.append((tier, sp.key, tuple(sub), tuple(ss), rng.randrange(1 << 30)))
+        # layouts in which one parameter carries the INNER sample dimension only ([K] + base under [S, K]), the
+        # others both or none
+        names = list(sp.params)
+        if len(names) >= 2 and sp.json is not None:
+            s2 = [x for x in shapes if len(x) == 2 and x[0] >= 2 and x[1] >= 2]
+            picks = names if tier == "thorough" else rng.sample(names, min(2, len(names)))
+            for inner in picks:
+                others = [n for n in names if n != inner]
+                subs_in = [tuple(others) + (inner + INNER,), (rng.choice(others), inner + INNER)]
+                for sub in dict.fromkeys(subs_in):
+                    for ss in ([rng.choice(s2)] if tier != "thorough" else rng.sample(s2, min(3, len(s2)))):
+                        jobs.append((tier, sp.key, tuple(sub), tuple(ss), rng.randrange(1 << 30)))
     return jobs
 
 
@@ -1075,6 +1119,8 @@ def class_of(spec):
 def role(spec, name):
     """parameter name -> role used in finding keys (so that the key does not depend on which torch
     distribution / substitution model the catalogue entry happens to use)"""
+    if name.endswith(INNER):
+        return role(spec, name[:-1]) + "(inner dimension only)"
     if spec.group in ("joint", "joint1"):
         i, n = name.split(".", 1)
         sub = spec.subs[int(i)]
@@ -1088,6 +1134,13 @@ def role(spec, name):
 
 
 def finding_key(spec, sub, ss, kind):
+    if has_inner(sub):
+        # layouts with a parameter carrying the inner dimension only: the finding is identified by the class, by WHICH
+        # parameter is the inner-only one and by whether it needs the coincidence S = K (then the shapes cannot tell
+        # the inner from the outer dimension), not by which of the other parameters happen to be batched
+        inner = sorted({role(spec, n[:-1]) for n in sub if n.endswith(INNER)})
+        return (f"C10:{class_of(spec)}:inner-dimension-only={{{','.join(inner)}}}:"
+                f"{'S=K' if len(ss) == 2 and ss[0] == ss[1] else 'S!=K'}:{kind}")
     roles = sorted({role(spec, n) for n in sub})
     return f"C10:{class_of(spec)}:batched={{{','.join(roles)}}}:ss={'[S]' if len(ss) == 1 else '[S,K]'}:{kind}"
 
@@ -1154,7 +1207,7 @@ def _work(job):
     sp = _cat(tier)[key] if key in _cat(tier) else find_spec(key)
     rng = random.Random(vseed)
     vals = gen_values(rng, sp, set(sub), ss)
-    res = oracle(sp, set(sub), ss, vals, extras=(tier != "thorough" or vseed % 7 == 0))
+    res = oracle(sp, set(sub), ss, vals, extras=(tier != "thorough" or vseed % 7 == 0) and not has_inner(sub))
     res.update(key=key, sub=list(sub), ss=list(ss), vseed=vseed)
     if res["outcome"] in ("mix", "shape"):
         res["min_sub"], res["min_vals"], res["min_what"] = list(sub), vals, res["what"]
